@@ -301,6 +301,16 @@ fn main() {
             guarded(&mut rec, &mut rng, &sched2, true, "c03", case);
         }
     }
+    // one spill-sized comb in every tier: ~300 heads whose fork points all stay pending in the
+    // convergence map at once (> 256 = one block), so spilled blocks must be found again
+    {
+        let d = comb_dag(&mut rng, 300, 0, false, 7);
+        let cmds = realize(&d, args.seed.wrapping_mul(1_000_003).wrapping_add(77));
+        rec.begin_case();
+        rec.count("shape:comb-300-heads");
+        let sched = make_schedule(&mut rng, &cmds, false, (cmds.len() as u64 / 3).max(8), true);
+        guarded(&mut rec, &mut rng, &sched, false, "c03-comb", 100_001);
+    }
     // a few spill-sized graphs (sparse log fact; stored state checked at the merges that are sampled)
     if args.thorough() || args.search {
         for (name, d) in [
